@@ -45,11 +45,14 @@ static size_t vp_str(unsigned char *s, size_t k)
 }
 
 /* ------------------------------------------------------------------- match */
+#ifndef VP_KPAT
+#define VP_KPAT VP_N      /* longest pattern */
+#endif
 void harness_match(void)
 {
 	unsigned char pat[VP_N + 2], name[VP_N + 2];
 	int icase = vp_bool(), r, ref;
-	vp_str(pat, VP_N); vp_str(name, VP_N);
+	vp_str(pat, VP_KPAT); vp_str(name, VP_N);
 	pat[VP_N + 1] = name[VP_N + 1] = 0;
 	ref = rr_glob(pat, name, icase);
 	r = prefix_suffix_match((const char *)pat, (const char *)name, icase);
